@@ -159,6 +159,20 @@ func TestC05_Perturbations(t *testing.T) {
 	}
 }
 
+// TestC05_DeepRelay: well-formed relay chains of every depth 1..105 (and their truncation by one byte) must be accepted (rejected).
+func TestC05_DeepRelay(t *testing.T) {
+	for _, inner := range deepInners() {
+		for d := 1; d <= 105; d++ {
+			b := deepRelay(d, inner, d%2 == 0)
+			if len(b) > 4096 {
+				continue
+			}
+			c05.one(t, obs.Hex(b))
+			c05.one(t, obs.Hex(b[:len(b)-1]))
+		}
+	}
+}
+
 // mutateV6 applies structure-aware byte mutations.
 func mutateV6(t *rapid.T, b []byte) []byte {
 	b = append([]byte{}, b...)
